@@ -9,9 +9,14 @@
 (* the request's own token substituted for "T" - whatever the pool holds.   *)
 EXTENDS Naturals, Sequences, FiniteSets
 
-Shapes == {"direct", "tsr", "redirect", "noroute", "nomethod", "options", "lookup", "lookupclone", "clonewith", "clone"}
-RouteShapes == {"direct", "tsr", "lookup", "lookupclone", "clonewith", "clone"}
-CloneShapes == {"lookupclone", "clone"}
+\* tsrclone: a Clone taken in a handler reached through an ignored trailing slash; hostdirect / hosttsr: a route with a
+\* hostname parameter and a path parameter, matched directly / through an ignored trailing slash; statichost: a route
+\* below a static hostname whose handler routes another request by hand (Router.Lookup) while its own context is in use
+Shapes == {"direct", "tsr", "redirect", "noroute", "nomethod", "options", "lookup", "lookupclone", "clonewith", "clone",
+           "tsrclone", "hostdirect", "hosttsr", "statichost"}
+RouteShapes == {"direct", "tsr", "lookup", "lookupclone", "clonewith", "clone", "tsrclone", "hostdirect", "hosttsr", "statichost"}
+CloneShapes == {"lookupclone", "clone", "tsrclone"}
+HostParamShapes == {"hostdirect", "hosttsr"}
 
 ScopeOf(shape) ==
   CASE shape \in RouteShapes -> "route"
@@ -23,9 +28,9 @@ ScopeOf(shape) ==
 \* "T" = the current request's token, "-" = absent/empty
 Expect(shape) ==
   [route   |-> IF shape \in RouteShapes THEN "pattern" ELSE "-",
-   params  |-> IF shape \in RouteShapes THEN <<"T">> ELSE <<>>,
+   params  |-> IF shape \in HostParamShapes THEN <<"T", "T">> ELSE IF shape \in RouteShapes THEN <<"T">> ELSE <<>>,
    scope   |-> ScopeOf(shape),
-   query   |-> "T", reqhdr |-> "T", path |-> "T", host |-> "T", remote |-> "T",
+   query   |-> "T", reqhdr |-> "T", path |-> "T", host |-> IF shape = "statichost" THEN "static" ELSE "T", remote |-> "T",
    status  |-> 200, size |-> 0, written |-> FALSE,
    resphdr |-> "-"]                         \* nothing of an earlier response is visible
 
